@@ -180,6 +180,11 @@ MUTANTS = [
     ("grid_dof_count_no_plus_one", "bempp_cl/api/space/space.py", "        number_of_grid_dofs = 1 + _np.max(self._local2global_map)", "        number_of_grid_dofs = _np.max(self._local2global_map)", 0, ["C09"]),
     ("colour_map_positive_sentinel", "bempp_cl/api/space/space.py", "self._color_map = -_np.ones(self.grid.number_of_elements, dtype=_np.int32)", "self._color_map = _np.ones(self.grid.number_of_elements, dtype=_np.int32)", 0, ["C16"]),
     ("sparse_grid_guard_eq", "bempp_cl/core/sparse_assembler.py", "        if domain.grid != dual_to_range.grid:", "        if domain.grid == dual_to_range.grid:", 0, ["C13"]),
+    ("bary_edge_memo_sentinel", "bempp_cl/api/grid/grid.py", "    edge_to_vertex = -_np.ones(number_of_edges)", "    edge_to_vertex = _np.ones(number_of_edges)", 0, ["C11", "C10"]),
+    ("bary_memo_test_always_true", "bempp_cl/api/grid/grid.py", "            if edge_to_vertex[edge_index] > -1:", "            if edge_to_vertex[edge_index] >= -1:", 0, ["C11", "C10"]),
+    ("bary_barycentre_factor_half", "bempp_cl/api/grid/grid.py", "new_vertices[:, number_of_vertices] = 1.0 / 3 * _np.sum(vertices[:, elements[:, index]], axis=1)", "new_vertices[:, number_of_vertices] = 1.0 / 2 * _np.sum(vertices[:, elements[:, index]], axis=1)", 0, ["C11", "C10"]),
+    ("bary_vertex_table_too_small", "bempp_cl/api/grid/grid.py", "    new_number_of_vertices = number_of_vertices + number_of_elements + number_of_edges", "    new_number_of_vertices = number_of_vertices + number_of_elements", 0, ["C11"]),
+    ("shared_edge_one_row_swapped", "bempp_cl/api/grid/grid.py", "        for i in range(2):\n            tmp = index_pairs[i, 0]\n            index_pairs[i, 0] = index_pairs[i, 1]\n            index_pairs[i, 1] = tmp", "        for i in range(1, 2):\n            tmp = index_pairs[i, 0]\n            index_pairs[i, 0] = index_pairs[i, 1]\n            index_pairs[i, 1] = tmp", 0, ["C11", "C03"]),
     ("hyp_guard_trial_dropped", "bempp_cl/api/operators/boundary/laplace.py", "    if dual_to_range.shapeset.identifier != \"p1_discontinuous\":", "    if domain.shapeset.identifier != \"p1_discontinuous\":", 0, ["C06"]),
     ("efield_guard_accepts_bc", "bempp_cl/api/operators/boundary/maxwell.py", "    if domain.identifier != \"rwg0\":", "    if domain.identifier not in (\"rwg0\", \"snc0\"):", 0, ["C06"]),
     ("maxwell_pot_guard_removed", "bempp_cl/api/operators/potential/maxwell.py", "    if space.identifier != \"rwg0\":", "    if space is None:", 1, ["C08"]),
